@@ -692,7 +692,7 @@ def run(ctx):
         ctx.finish()
 
     # ---------------------------------------------------------------- programs
-    nW, nM, nT, nL = (400, 600, 1500, 60) if thorough else (5, 10, 12, 3)
+    nW, nM, nT, nL = (40, 60, 150, 10) if thorough else (5, 10, 12, 3)
     r0 = fraggen.Rng(ctx.seed * 65537 + 7)
     progs = []      # (id, src, feats, stream)
     trees = []
@@ -718,7 +718,7 @@ def run(ctx):
         tok_ops[op] = tok_ops.get(op, 0) + 1
         progs.append((f"t{i}", ms, ["tok:" + op, "file:" + os.path.relpath(f, core.REPO)], "T"))
     progs += [(a, b, c, "L") for a, b, c in layout_programs(fraggen.Rng(ctx.seed * 577 + 3), nL)]
-    nK = 80 if thorough else 5
+    nK = 20 if thorough else 5
     progs += [(a, b, c, "K") for a, b, c in class_programs(fraggen.Rng(ctx.seed * 4099 + 11), nK)]
     # corpus: witnesses of the listed findings and minimised past crashes
     for cid, inp in core.corpus_rows("C07"):
@@ -763,7 +763,7 @@ def run(ctx):
                   "tree_mutation_operators": mut_ops, "token_mutation_operators": tok_ops})
 
     # ---------------------------------------------------------------- stage-1 programs through harness c01 + model driver
-    nS = 600 if thorough else 30
+    nS = 100 if thorough else 30
     progsS = []
     for i in range(nS):
         # the frozen stage-1 model has no if-expressions / loops: keep the generator on the straight-line fragment
